@@ -3,7 +3,8 @@
 Wraps vk.gen.problem.gen_problem (not edited) and post-processes its JSON recipes so that they stay inside the fragment a
 target language can express, while planting the constructs the properties name: adversarial identifiers, finite-decimal
 rationals (decimalize / plant_decimal_counter: Real constants such as 1/10, 3/10, 7/20 that no binary float represents, in
-initial values, effect values, conditions, durations, type bounds), nested non-commutative numeric expressions, action costs, durative actions, timed initial literals / effects.
+initial values, effect values, conditions, durations, type bounds), nested non-commutative numeric expressions, action costs, durative actions, timed initial literals / effects, and (PDDL, strata of
+gen_pddl_case) Boolean assignments whose value only the simplifier turns into a constant, a user type named `object`.
 Everything here is recipe-level (plain JSON); nothing of the library is called.
 """
 import copy
@@ -481,7 +482,7 @@ def plant_nested_numeric(rng, rec, minus=True, decimals=True, prefer=None):
     """Plant a-(b-c), (a-b)-c, a/(b/c), (a/b)/c (divisors are non-zero constants) into a precondition and an effect value.
     prefer: "minus" | "div" - the planted precondition is the right-nested form a op (b op c) of that operator."""
     r = copy.deepcopy(rec)
-    acts = [a for a in r["actions"]]
+    acts = [a for a in r["actions"] if not a.get("_planted")]  # (actions planted by plant_constant_bool_assignment stay as they are)
     if not acts:
         return r
     a = rng.choice(acts)
@@ -537,8 +538,167 @@ def plant_nested_numeric(rng, rec, minus=True, decimals=True, prefer=None):
     return r
 
 
+# ---- planted writer traps (strata of C18's workload) -------------------------------------------------------------------------
+# Boolean expressions that are no constants but that the library's simplifier reduces to the constant false: the PDDL writer
+# (rewrite_bool_assignments) splits `f := e` into `when e: f` / `when not e: not f` and simplifies both conditions, so for
+# these values only the unconditional delete effect `(not (f ...))` remains.
+CONSTANT_BOOL_FORMS = ["and-not", "not-true", "cmp-consts", "eq-objects", "and-false", "not-or", "not-eq-self", "exists-false", "not-implies", "decimal-cmp"]
+
+
+def _bool_atoms(rng, rec, scope_params=(), scope_vars=()):
+    """Boolean fluent expressions usable with the given parameters / variables (ground, parameter or variable arguments)."""
+    objs = {}
+    for o, t in rec["objects"]:
+        objs.setdefault(t[1], []).append(o)
+    fathers = {n: f for n, f in rec["types"]}
+
+    def is_sub(t, sup):
+        while t is not None:
+            if t == sup:
+                return True
+            t = fathers.get(t)
+        return False
+
+    out = []
+    for f in rec["fluents"]:
+        if f["type"] != "bool":
+            continue
+        args = []
+        for _, pt in f["sig"]:
+            cands = [["v", vn, vt] for vn, vt in scope_vars if is_sub(vt[1], pt[1])] * 3
+            cands += [["p", pn] for pn, ptt in scope_params if ptt[0] == "user" and is_sub(ptt[1], pt[1])] * 2
+            cands += [["o", o] for t, os in objs.items() if is_sub(t, pt[1]) for o in os]
+            if not cands:
+                args = None
+                break
+            args.append(rng.choice(cands))
+        if args is not None:
+            out.append((f, ["f", f["name"]] + args))
+    return out
+
+
+def constant_valued_bool(rng, rec, form, value, scope_params=(), scope_vars=()):
+    """A non-constant Boolean expression recipe that simplifies to the constant `value`; `form` is one of CONSTANT_BOOL_FORMS
+    (a form whose ingredients the recipe lacks - two objects of one type, a parameter, a type - falls back to `and-not`)."""
+    atoms = _bool_atoms(rng, rec, scope_params, scope_vars)
+    g = rng.choice(atoms)[1] if atoms else ["gt", ["i", 0], ["i", 1]]
+    by_type = {}
+    for o, t in rec["objects"]:
+        by_type.setdefault(t[1], []).append(o)
+    pairs = [os for os in by_type.values() if len(os) >= 2]
+    uparams = [pn for pn, pt in scope_params if pt[0] == "user"]
+    e = None
+    if form == "not-true":
+        e = ["not", ["b", True]]
+    elif form == "cmp-consts":
+        a, b = rng.sample([0, 1, 2, 3, 5, 7], 2)
+        e = [rng.choice(["gt", "ge"]), ["i", min(a, b)], ["i", max(a, b)]] if rng.random() < 0.5 else [rng.choice(["lt", "le"]), ["i", max(a, b)], ["i", min(a, b)]]
+    elif form == "decimal-cmp":
+        e = ["le", ["r", "3/10"], ["r", "1/10"]] if rng.random() < 0.5 else ["eq", ["r", "1/5"], ["r", "7/20"]]
+    elif form == "eq-objects" and pairs:
+        a, b = rng.sample(rng.choice(pairs), 2)
+        e = ["eq", ["o", a], ["o", b]]
+    elif form == "and-false":
+        e = ["and", g, ["b", False]] if rng.random() < 0.5 else ["and", ["b", False], g]
+    elif form == "not-or":
+        e = ["not", ["or", g, ["not", g]]]
+    elif form == "not-eq-self" and uparams:
+        p = rng.choice(uparams)
+        e = ["not", ["eq", ["p", p], ["p", p]]]
+    elif form == "exists-false" and rec["types"]:
+        t = rng.choice(rec["types"])[0]
+        v = [f"q0_{t}", ["user", t]]
+        inner = _bool_atoms(rng, rec, scope_params, list(scope_vars) + [v])
+        body = rng.choice(inner)[1] if inner else g
+        e = ["exists", [v], ["and", body, ["b", False]]]
+    elif form == "not-implies":
+        e = ["not", ["implies", g, g]]
+    if e is None:
+        e = ["and", g, ["not", g]] if rng.random() < 0.5 else ["and", ["not", g], g]
+    return e if not value else ["not", e]
+
+
+def plant_constant_bool_assignment(rng, rec, form, value=False, own_action=True, need_pre=False):
+    """Plant `f(..) := e` (unconditional; sometimes under a forall) where e = constant_valued_bool(form, value) and every ground
+    instance of the Boolean fluent f starts with the *opposite* value, so that the effect changes the state whenever its action
+    is applied.  own_action: the effect is the only effect of a new action without precondition (applicable in every state;
+    need_pre: with the tautology `o == o` as precondition, which the writer prints as `:precondition (and )`); otherwise it is
+    appended to an existing action that does not write f (falls back to a new action).
+    -> (recipe, {"fluent", "action", "form", "value", "forall", "own_action"})"""
+    r = copy.deepcopy(rec)
+    bfl = [f for f in r["fluents"] if f["type"] == "bool"]
+    if not bfl:
+        return r, None
+    f = rng.choice(bfl)
+    f["default"] = ["b", not value]
+    r["init"] = [[fe, (["b", not value] if fe[1] == f["name"] else v)] for fe, v in r["init"]]
+    host = None
+    if not own_action:
+        cands = [a for a in r["actions"] if "duration" not in a and all(e["fluent"][1] != f["name"] for e in a["effects"])]
+        host = rng.choice(cands) if cands else None
+    if host is None:
+        own_action = True
+        used = {a["name"] for a in r["actions"]} | {x["name"] for x in r["fluents"]} | {o for o, _ in r["objects"]} | {t for t, _ in r["types"]}
+        name = next(n for n in [f"a{len(r['actions'])}", "a_const", "a_const_1", "a_const_2"] + [f"a_const_{k}" for k in range(3, 40)] if n not in used)
+        host = {"name": name, "params": [[f"y{j}", pt] for j, (_, pt) in enumerate(f["sig"])], "pre": [], "effects": [], "_planted": True}
+        if need_pre and r["objects"]:
+            o = rng.choice(r["objects"])[0]
+            host["pre"] = [["eq", ["o", o], ["o", o]]]
+        r["actions"].append(host)
+        args = [["p", pn] for pn, _ in host["params"]]
+    else:
+        args = None
+    forall = []
+    if f["sig"] and rng.random() < 0.3:
+        forall = [[f"e_{f['sig'][0][1][1]}", f["sig"][0][1]]]
+    if args is None:
+        atoms = [fe for g, fe in _bool_atoms(rng, r, host["params"]) if g is f]
+        if not atoms:
+            return rec, None
+        args = atoms[0][2:]
+    if forall:
+        args = [["v", forall[0][0], forall[0][1]]] + args[1:]
+        if own_action:
+            host["params"] = host["params"][1:]
+            args = [args[0]] + [["p", pn] for pn, _ in host["params"]]
+    e = constant_valued_bool(rng, r, form, value, host["params"], forall)
+    host["effects"].append({"kind": "assign", "fluent": ["f", f["name"]] + args, "value": e, "cond": None, "forall": forall})
+    return complete_action_costs(r), {"fluent": f["name"], "action": host["name"], "form": form, "value": value, "forall": bool(forall), "own_action": own_action}
+
+
+# PDDL's root type is called `object`: a *user* type of that name (PDDL is case-insensitive) next to other root types must not be
+# written as `object`, or every other type becomes its subtype when the files are read back
+OBJECT_TYPE_NAMES = ["object", "Object", "OBJECT", "object", "oBjEcT"]
+
+
+def object_type_names(base, type_name, slot):
+    """A `names` callable (vk.gen.problem profiles) that calls the user type number `slot` type_name and delegates the rest."""
+
+    def nm(rng, kind, i):
+        if kind == "T" and i == slot:
+            return type_name
+        return base(rng, kind, i) if base else f"{kind}{i}"
+
+    return nm
+
+
+def use_type_as_parameter(rng, rec, type_name):
+    """Make sure that some action has a parameter of the given user type and some action one of another type (extra, unused
+    parameters: the ground instances of the action then depend on the extension of the type)."""
+    r = copy.deepcopy(rec)
+    if not r["actions"]:
+        return r
+    others = [t for t, _ in r["types"] if t != type_name]
+    for want in ([type_name], others):
+        if want and not any(pt[0] == "user" and pt[1] in want for a in r["actions"] for _, pt in a["params"]):
+            a = rng.choice(r["actions"])
+            used = {pn for pn, _ in a["params"]}
+            a["params"] = a["params"] + [[next(n for n in (f"y{k}" for k in range(9)) if n not in used), ["user", rng.choice(want)]]]
+    return r
+
+
 # ---- temporal part --------------------------------------------------------------------------------------------------------
-DUR_CONST = [["i", 1], ["i", 2], ["i", 3], ["r", "1/2"], ["r", "5/2"], ["i", 5], ["r", "3/4"], ["r", "3/10"], ["r", "27/10"]]
+DUR_CONST =[["i", 1], ["i", 2], ["i", 3], ["r", "1/2"], ["r", "5/2"], ["i", 5], ["r", "3/4"], ["r", "3/10"], ["r", "27/10"]]
 
 
 def durativize(rng, rec, lang="pddl", p=0.7, ice=0.0, form=None, cond_form=None):
@@ -617,6 +777,8 @@ def durativize(rng, rec, lang="pddl", p=0.7, ice=0.0, form=None, cond_form=None)
         for e in a.get("effects", []):
             effs.append([tp(rng.choice(["start", "end", "end"])), e])
         acts.append({"name": a["name"], "params": a["params"], "duration": dur, "conds": conds, "effects": effs})
+        if a.get("_planted"):
+            acts[-1]["_planted"] = True
     r["actions"] = acts
     if not any_dur:
         return r, False
@@ -713,14 +875,25 @@ DURATION_FORMS = ["fixed", "closed", "open", "lopen", "ropen", "fixed"]
 COND_FORMS = ["open", "closed", "lopen", "ropen", "start", "ice-open", "end", "ice-point"]
 
 
+# every PDDL_STRATUM_MOD-th case carries one planted writer trap on top of its variant (9 is coprime to the variant cycle, the
+# decimal parity and the duration / nested-expression cycles: each stratum meets every variant)
+PDDL_STRATUM_MOD = 9
+PDDL_STRATA = {4: "constant-bool-assignment", 8: "type-named-object"}
+
+
 def gen_pddl_case(rng, idx=None):
-    """-> (recipe, info) ; info: variant, rewrite_bool_assignments, generator features.
+    """-> (recipe, info) ; info: variant, rewrite_bool_assignments, generator features, stratum / planted.
     idx (position of the case in the run) stratifies the variant so that small runs cover every class."""
+    import random
+
     x = rng.random()
     if idx is None:
         variant = "classic" if x < 0.4 else ("ai-friendly" if x < 0.75 else "temporal")
     else:
         variant = PDDL_VARIANT_CYCLE[idx % len(PDDL_VARIANT_CYCLE)]
+    stratum = None if idx is None else PDDL_STRATA.get(idx % PDDL_STRATUM_MOD)
+    j = 0 if idx is None else idx // PDDL_STRATUM_MOD  # running index inside the stratum
+    planted = None
     prof = dict(PDDL_BASE)
     adversarial = rng.random() < 0.65
     if adversarial:
@@ -732,7 +905,20 @@ def gen_pddl_case(rng, idx=None):
     if variant == "temporal":
         prof["metric"] = "costs" if y < 0.2 else None
         prof["max_actions"] = 2
-    rec, feats = gen_problem(rng, prof)
+    if stratum == "type-named-object":
+        # a flat typing with >= 2 root types, one of them called `object` (in some letter case), objects and parameters of both
+        tname = OBJECT_TYPE_NAMES[j % len(OBJECT_TYPE_NAMES)]
+        prof["hierarchy"] = False
+        prof["names"] = object_type_names(prof.get("names"), tname, (j // len(OBJECT_TYPE_NAMES)) % 2)
+        for _ in range(12):
+            rec, feats = gen_problem(random.Random(rng.getrandbits(64)), prof)
+            if len(rec["types"]) >= 2:
+                break
+        if len(rec["types"]) >= 2 and any(t == tname for t, _ in rec["types"]):
+            rec = use_type_as_parameter(rng, rec, tname)
+            planted = {"type": tname}
+    else:
+        rec, feats = gen_problem(rng, prof)
     rec = complete_action_costs(rec)
     rec = closed_world_booleans(rec)
     rec = finite_decimals(rec)
@@ -742,6 +928,13 @@ def gen_pddl_case(rng, idx=None):
         rec = decimalize(rng, rec, p_bounds=0.0, finite=True)
         if rng.random() < 0.7:
             rec = plant_decimal_counter(rng, rec)
+    if stratum == "constant-bool-assignment":
+        # `f := e` with e non-constant but simplifying to false (every 7th: to true); two of three in an action of their own
+        # that is applicable in every state. Planted before durativize: temporal cases get it `at start` / `at end`.
+        rec, planted = plant_constant_bool_assignment(
+            rng, rec, CONSTANT_BOOL_FORMS[j % len(CONSTANT_BOOL_FORMS)], value=j % 7 == 6, own_action=j % 3 != 2, need_pre=variant == "ai-friendly"
+        )
+        rewrite = rewrite or planted is not None
     has_dur = False
     if variant == "temporal":
         rec, has_dur = durativize(rng, rec, "pddl", form=None if idx is None else DURATION_FORMS[(idx // len(PDDL_VARIANT_CYCLE)) % len(DURATION_FORMS)])
@@ -768,7 +961,10 @@ def gen_pddl_case(rng, idx=None):
         rec = rename_params(rng, rec)
     # the writer's documented `empty_preconditions` flag prints `:precondition ()` for actions without preconditions
     empty_pre = rng.random() < (0.3 if not clean else 0.0)
-    return rec, {"variant": variant, "rewrite": rewrite, "adversarial": adversarial, "features": feats, "durative": has_dur, "empty_pre": empty_pre, "decimals": decimals}
+    info = {"variant": variant, "rewrite": rewrite, "adversarial": adversarial, "features": feats, "durative": has_dur, "empty_pre": empty_pre, "decimals": decimals}
+    if planted is not None:
+        info["stratum"], info["planted"] = stratum, planted
+    return rec, info
 
 
 def anml_friendly_bounds(rec):
